@@ -27,6 +27,8 @@ def build(rec):
         mdg = pp.meshing.cart_grid(fracs, np.array(rec["dims"]))
         sds = mdg.subdomains()
         g = sds[rec["pick"] % len(sds)]
+    elif k == "poly2":
+        return poly2(rec["k"], rec.get("flip", []))
     elif k == "sub":
         base = build(rec["base"])
         cells = np.array(sorted(set(c % base.num_cells for c in rec["cells"])), dtype=int)
@@ -35,6 +37,34 @@ def build(rec):
         raise ValueError(k)
     g.compute_geometry()
     return g
+
+
+def poly2(k, flip):
+    """Two polygonal cells (left / right) separated by a zig-zag polyline of k faces, built by
+    hand through the public constructor: the cells share k faces."""
+    # nodes: 0 bottom-left, 1 bottom-mid (= polyline start), 2 bottom-right, then polyline
+    # interior nodes 3 .. k+1, then top-mid (k+2), top-right (k+3), top-left (k+4)
+    pl = [1] + list(range(3, k + 2)) + [k + 2]
+    xs = [0.0, 1.0, 2.0] + [1.0 + (0.25 if i % 2 else -0.25) for i in range(k - 1)] + [1.0, 2.0, 0.0]
+    ys = [0.0, 0.0, 0.0] + [(i + 1) / k for i in range(k - 1)] + [1.0, 1.0, 1.0]
+    nn = k + 5
+    nodes = np.vstack([xs, ys, np.zeros(nn)])
+    faces = [(pl[i], pl[i + 1]) for i in range(k)]            # shared faces 0 .. k-1
+    faces += [(0, 1), (k + 2, k + 4), (k + 4, 0)]             # left cell: bottom, top, left side
+    faces += [(1, 2), (2, k + 3), (k + 3, k + 2)]             # right cell: bottom, right side, top
+    nf = len(faces)
+    fn = sps.csc_matrix((np.ones(2 * nf, dtype=bool), np.array(faces).ravel(),
+                         np.arange(0, 2 * nf + 1, 2)), shape=(nn, nf))
+    rows, cols, vals = [], [], []
+    for f in range(k):
+        s = -1 if f in flip else 1
+        rows += [f, f]; cols += [0, 1]; vals += [s, -s]
+    for f in range(k, k + 3):
+        rows.append(f); cols.append(0); vals.append(1)
+    for f in range(k + 3, k + 6):
+        rows.append(f); cols.append(1); vals.append(1)
+    cf = sps.csc_matrix((np.array(vals), (np.array(rows), np.array(cols))), shape=(nf, 2))
+    return pp.Grid(2, nodes, fn, cf, "poly2")
 
 
 def rebuild(g, mode, seed):
@@ -114,7 +144,7 @@ class C21(Prop):
     props_file = "Props/C21.v"
     preamble = ("From Coq Require Import List ZArith.\nImport ListNotations.\n"
                 "From PP Require Import Model.C21 Model.C21_ext.\nOpen Scope Z_scope.\n")
-    n_cases = (50, 600)
+    n_cases = (40, 600)
     design_ref = "DESIGN.md §5 C21"
     level_text = (
         "Coq theorems over an executable transcription of the six connectivity queries of "
@@ -135,7 +165,8 @@ class C21(Prop):
         "without storing it.  Tie: on every run the real queries "
         "are executed on Cartesian 1-3-D, tensor, structured triangle / tetrahedral grids, "
         "fracture-split md-grid subdomains (2-D/3-D hosts, fracture and intersection grids), "
-        "point grids and extracted subgrids, as constructed and re-created through the public "
+        "point grids, extracted subgrids and hand-built polygonal grids, over histories of in-place "
+        "topology changes on one grid object (every round against the current incidence), as constructed and re-created through the public "
         "pp.Grid constructor with csr-stored cell_faces / face_nodes, and Coq recomputes every output from the real "
         "stored entries and compares; Coq also evaluates the well-formedness hypothesis on "
         "every one of those real incidences.")
@@ -154,7 +185,13 @@ class C21(Prop):
             "StructuredTetrahedralGrid, PointGrid, subdomains of pp.meshing.cart_grid md-grids "
             "with 1-3 axis-aligned fractures (2-D and 3-D hosts; host, fracture and intersection "
             "grids), pp.partition.extract_subgrid of any of these on random cell subsets "
-            "(connected or not); about 2/3 of the grids are re-created through the public constructor "
+            "(connected or not); hand-built polygonal two-cell grids (public constructor) whose cells share "
+            "128..300 faces; HISTORIES on one grid object: all queries, then an in-place change of the "
+            "incidence (sign flips of one-cell faces in the same matrix object; replacement of nodes / "
+            "face_nodes / cell_faces by a bigger grid's followed by the documented tag update calls; a "
+            "real pp.propagate_fracture step on a small 2-D md-grid, host or fracture grid), then all "
+            "queries again, every round judged against the incidence held at that time (shapes "
+            "included); about 2/3 of the grids are re-created through the public constructor "
             "pp.Grid(dim, nodes, face_nodes, cell_faces, name) from copies of their matrices with "
             "cell_faces as csr (sorted, or built from shuffled coo with reversed in-row order) and/or "
             "face_nodes as csr (tags then passed as external_tags), with randomly permuted node / face / "
@@ -246,7 +283,22 @@ class C21(Prop):
         big = tier != "quick"
         for i in range(n):
             rec = self._recipe(rng, big)
-            if rng.random() < 0.25 and rec["kind"] != "point":
+            hist = rng.choice(["none", "none", "flip", "flip", "grow", "flip_grow"])
+            r0 = rng.random()
+            if r0 < 0.06:
+                # two cells sharing very many faces (counts beyond 127 and 255)
+                k = rng.choice([128, 130, 200, 255, 256, 300])
+                rec = {"kind": "poly2", "k": k, "flip": sorted(rng.sample(range(k), rng.randint(0, 5)))}
+                hist = rng.choice(["none", "flip"])
+            elif r0 < 0.16:
+                # real in-place topology change: one fracture of a 2-D md-grid propagates by one face
+                nx, ny = rng.randint(3, 5), rng.randint(2, 3)
+                y = rng.randint(1, ny - 1)
+                a = rng.randint(0, nx - 2)
+                b = rng.randint(a + 1, nx - 1)
+                rec = {"kind": "md_prop", "dims": [nx, ny], "frac": [a, b, y], "pick": rng.randint(0, 1)}
+                hist = "propagate"
+            if rng.random() < 0.25 and rec["kind"] not in ("point", "poly2", "md_prop"):
                 k = rng.randint(1, 6)
                 rec = {"kind": "sub", "base": rec, "cells": [rng.randint(0, 10 ** 6) for _ in range(k)]}
             mode = rng.choice(["subset", "subset", "subset", "all", "empty", "dup", "internal", "internal",
@@ -257,8 +309,11 @@ class C21(Prop):
                                  + ["fn_csr_exttags"] * 2 + ["both_csr_exttags"] * 2
                                  + ["renumber"] * 4 + ["dtypes"] * 3)
             yield {"grid": rec, "faces_mode": mode, "faces_seed": rng.randint(0, 2 ** 30),
-                   "ddim": rng.choice([1, 1, 2, 2, 3, 3, 0, -1]), "storage": storage,
-                   "pm_mode": pmode}
+                   "ddim": rng.choice([1, 1, 2, 2, 3, 3, 0, -1]) if rec["kind"] != "poly2"
+                           else rng.choice([1, 1, 2, 0]),
+                   "storage": storage if rec["kind"] != "md_prop" else "asis",
+                   "pm_mode": pmode, "history": hist,
+                   "grow_dims": [rng.randint(2, 3) for _ in range(3)]}
 
     # ------------------------------------------------------------------ implementation
     def _faces(self, case, g):
@@ -314,19 +369,79 @@ class C21(Prop):
         return rows
 
     def run_impl(self, case):
-        g = rebuild(build(case["grid"]), case.get("storage", "asis"), case["faces_seed"])
+        """One grid OBJECT, queried, modified in place, queried again (history); every round is
+        judged against the incidence the object holds at that time."""
+        rec = case["grid"]
+        step = None
+        if rec["kind"] == "md_prop":
+            a, b, y = rec["frac"]
+            mdg = pp.meshing.cart_grid([np.array([[a, b], [y, y]], dtype=float)], np.array(rec["dims"]))
+            host, frac = mdg.subdomains(dim=2)[0], mdg.subdomains(dim=1)[0]
+            g = host if rec["pick"] == 0 else frac
+
+            def step():
+                fc = host.face_centers
+                cand = np.where((np.abs(fc[1] - y) < 1e-10) & (np.abs(fc[0] - (b + 0.5)) < 1e-10))[0]
+                assert cand.size == 1
+                pp.propagate_fracture.propagate_fractures(mdg, {frac: cand})
+        else:
+            g = rebuild(build(rec), case.get("storage", "asis"), case["faces_seed"])
         st = "storage_" + case.get("storage", "asis")
         self.stats[st] = self.stats.get(st, 0) + 1
+        out = self._query(g, case, 0)
+        out["later"] = []
+        hist = case.get("history", "none")
+        self.stats["hist_" + hist] = self.stats.get("hist_" + hist, 0) + 1
+        steps = {"none": [], "flip": ["flip"], "grow": ["grow"], "flip_grow": ["flip", "grow"],
+                 "propagate": ["propagate"]}[hist]
+        for n, kind in enumerate(steps):
+            if kind == "flip":
+                # re-orient some one-cell faces IN PLACE (same matrix object, same sizes)
+                cfm = g.cell_faces
+                coo = sps.coo_matrix(cfm)
+                cnt = np.bincount(coo.row, minlength=g.num_faces)
+                one = np.where(cnt == 1)[0]
+                if one.size == 0:
+                    continue
+                pick = one[:: max(1, one.size // 3)]
+                if isinstance(cfm, sps.csc_matrix):
+                    mask = np.isin(cfm.indices, pick)
+                else:   # csr: data positions of the rows
+                    mask = np.isin(np.repeat(np.arange(cfm.shape[0]), np.diff(cfm.indptr)), pick)
+                cfm.data[mask] *= -1
+                if hasattr(g, "face_normals") and g.face_normals.shape[1] == g.num_faces:
+                    g.face_normals[:, pick] *= -1
+            elif kind == "grow":
+                # in-place replacement of the topology by that of a bigger grid, followed by the
+                # documented update calls
+                if g.dim == 0:
+                    continue
+                g2 = pp.CartGrid(np.array(case["grow_dims"][:g.dim]) + np.array(
+                    [1, 0, 0][:g.dim]) * int(g.num_cells))
+                g.nodes, g.face_nodes, g.cell_faces = g2.nodes, g2.face_nodes, g2.cell_faces
+                g.num_nodes, g.num_faces, g.num_cells = g2.num_nodes, g2.num_faces, g2.num_cells
+                g.tags = {}
+                g.initiate_face_tags()
+                g.update_boundary_face_tag()
+                g.initiate_node_tags()
+                g.update_boundary_node_tag()
+            elif kind == "propagate":
+                step()
+            out["later"].append(self._query(g, case, n + 1))
+        return out
+
+    def _query(self, g, case, rnd):
+        case = dict(case, faces_seed=case["faces_seed"] + 7919 * rnd)
         faces = self._faces(case, g)
         cf = _coo(g.cell_faces)
         fn = _coo(g.face_nodes)
         out = {"dimg": int(g.dim), "nf": int(g.num_faces), "nc": int(g.num_cells),
-               "nn": int(g.num_nodes), "cf": cf, "fn": fn, "faces": faces}
+               "nn": int(g.num_nodes), "cf": cf, "fn": fn, "faces": faces, "round": rnd}
         d = g.cell_faces_as_dense()
-        assert d.shape == (2, g.num_faces)
+        out["shapes"] = {"dense": list(d.shape)}
         out["dense"] = [[int(x) for x in d[0]], [int(x) for x in d[1]]]
         c2c = g.cell_connection_map()
-        assert c2c.shape == (g.num_cells, g.num_cells)
+        out["shapes"]["conn"] = list(c2c.shape)
         out["conn"] = [list(p) for p in _true_coords(c2c)]
         try:
             s, c = g.signs_and_cells_of_boundary_faces(np.array(faces, dtype=int))
@@ -337,11 +452,11 @@ class C21(Prop):
         except IndexError:
             out["sc"] = ["err", "IndexErr"]
         cn = g.cell_nodes()
-        assert cn.shape == (g.num_nodes, g.num_cells)
+        out["shapes"]["cn"] = list(cn.shape)
         out["cn"] = [list(p) for p in _true_coords(cn)]
         try:
             dv = g.divergence(case["ddim"])
-            assert dv.shape == (g.num_cells * case["ddim"], g.num_faces * case["ddim"])
+            out["shapes"]["div"] = list(dv.shape)
             co = sps.coo_matrix(dv)
             assert all(float(int(v)) == float(v) for v in co.data)
             out["div"] = ["ok", sorted([int(r), int(cc), int(v)]
@@ -349,7 +464,9 @@ class C21(Prop):
             out["div_stored"] = int(co.nnz)
         except ValueError:
             out["div"] = ["err", "ValueErr"]
-        # tags as constructed, then the recomputed domain-boundary tag
+        # tags as constructed (or as left by the documented update calls of the history step),
+        # then the recomputed domain-boundary tag; the grid's tags are restored afterwards
+        saved = {k: np.array(v, copy=True) for k, v in g.tags.items()}
         t = g.tags
         out["tag_all0"] = [bool(x) for x in (t["domain_boundary_faces"] | t["fracture_faces"]
                                               | t["tip_faces"])]
@@ -374,6 +491,9 @@ class C21(Prop):
         out["per_assigned"] = bool(hasattr(g, "periodic_face_map"))
         arr[:] = 0   # aliasing probe: the tags must not depend on the caller's array afterwards
         assert out["per_tag"] == [bool(x) for x in g.tags["domain_boundary_faces"]]
+        if hasattr(g, "periodic_face_map"):
+            del g.periodic_face_map
+        g.tags = saved
         self.stats["per_" + "_".join(out["per"])] = self.stats.get("per_" + "_".join(out["per"]), 0) + 1
         k = case["grid"]["kind"]
         self.stats[k] = self.stats.get(k, 0) + 1
@@ -384,7 +504,21 @@ class C21(Prop):
 
     # ------------------------------------------------------------------ oracle
     def oracle(self, case, res):
+        for r in [res] + list(res.get("later", [])):
+            why = self._oracle_round(case, r)
+            if why:
+                return why if r["round"] == 0 else f"after history step {r['round']}: {why}"
+        return None
+
+    def _oracle_round(self, case, res):
         nf, nc, nn = res["nf"], res["nc"], res["nn"]
+        d = case["ddim"]
+        exp = {"dense": [2, nf], "conn": [nc, nc], "cn": [nn, nc]}
+        if d >= 1:
+            exp["div"] = [nc * d, nf * d]
+        for k, v in exp.items():
+            if res["shapes"].get(k) != v:
+                return f"{k}: shape {res['shapes'].get(k)} but the grid has {nf} faces, {nc} cells, {nn} nodes"
         CF = np.zeros((nf, nc), dtype=int)
         for f, c, v in res["cf"]:
             CF[f, c] += v
@@ -488,6 +622,13 @@ class C21(Prop):
 
     # ------------------------------------------------------------------ Coq tie
     def coq_case(self, case, res):
+        terms = [self._coq_round(case, r) for r in [res] + list(res.get("later", []))]
+        t = terms[0]
+        for x in terms[1:]:
+            t = f"andb ({t}) ({x})"
+        return t
+
+    def _coq_round(self, case, res):
         nf = res["nf"]
         sc = res["sc"]
         faces = res["faces"]
@@ -504,7 +645,8 @@ class C21(Prop):
                  else ("Sc2ValueErr" if sc[1] == "ValueErr" else "Sc2IndexErr"))
         dv = res["div"]
         o_div = f"(DivOk {clist(dv[1], _ent)})" if dv[0] == "ok" else "DivErr"
-        term = (f"agree {zi(res['dimg'])} {cnat(nf)} {cnat(res['nc'])} cf "
+        ag = "agree_poly" if case["grid"]["kind"] == "poly2" else "agree"
+        term = (f"{ag} {zi(res['dimg'])} {cnat(nf)} {cnat(res['nc'])} cf "
                 f"{clist(res['fn'], _ent)} {clist(faces1, zi)} {zi(case['ddim'])} "
                 f"({clist(res['dense'][0], zi)}, {clist(res['dense'][1], zi)}) "
                 f"{clist(res['conn'], _pair)} {clist(res['tag'], cbool)} {o_sc} "
@@ -519,7 +661,7 @@ class C21(Prop):
         if res["dimg"] > 0:
             # the hypothesis of the theorems holds on this real incidence
             term = f"andb (wf_b {cnat(nf)} {cnat(res['nc'])} cf) ({term})"
-        return f"let cf : list ent := {clist(res['cf'], _ent)} in {term}"
+        return f"(let cf : list ent := {clist(res['cf'], _ent)} in {term})"
 
     def coq_diag(self, case, res):
         cf = clist(res["cf"], _ent)
